@@ -405,27 +405,39 @@ func c17gobChildren(c *core.Ctx, n int) {
 	run := func(k int) []string {
 		out, err := exec.Command(self, "-c17child", fmt.Sprint(k)).Output()
 		i := strings.Index(string(out), "C17CHILD ")
-		if err != nil || i < 0 {
+		if i < 0 {
 			c.Harness(fmt.Sprintf("c17 gob child failed: %v %s", err, out))
 			return nil
 		}
+		// (a non-zero exit status with the result line present is the race detector's exit code: its report is in the race log
+		// the driver collects)
 		var res []string
 		json.Unmarshal([]byte(strings.TrimSpace(string(out)[i+9:])), &res)
 		return res
 	}
-	seq := run(1)
-	conc := run(n)
-	if len(seq) != 1 || len(conc) != n {
+	if c17gobSeq == nil {
+		c17gobSeq = run(1)
+	}
+	seq := c17gobSeq
+	if len(seq) != 1 {
 		return
 	}
-	c.Count("conc:fresh-process-first-gob-rounds")
-	for g, r := range conc {
-		if r != seq[0] {
-			c.Violate("c17-result-differs:first-Gob-calls-of-a-process", "the first Gob calls of a fresh process return different results when made concurrently than when made alone", core.D{"goroutines": n, "goroutine": g, "concurrent": conc, "sequential": seq[0]})
+	for k := 0; k < 4; k++ {
+		conc := run(n)
+		if len(conc) != n {
 			return
+		}
+		c.Count("conc:fresh-process-first-gob-rounds")
+		for g, r := range conc {
+			if r != seq[0] {
+				c.Violate("c17-result-differs:first-Gob-calls-of-a-process", "the first Gob calls of a fresh process return different results when made concurrently than when made alone", core.D{"goroutines": n, "goroutine": g, "concurrent": conc, "sequential": seq[0]})
+				return
+			}
 		}
 	}
 }
+
+var c17gobSeq []string
 
 var c17fileSeq int64
 var c17gobRoundDone bool
@@ -471,7 +483,7 @@ func c17round(c *core.Ctx) {
 	c.NonTrivial(fmt.Sprint(c.Index, G, procs))
 
 	if c.Index%4 == 1 {
-		c17gobChildren(c, []int{2, 4, 8, 16}[r.Intn(4)])
+		c17gobChildren(c, []int{4, 8, 16, 32}[r.Intn(4)])
 	}
 	sharedRoot := c17map(r)
 	shared := mxj.Map(sharedRoot)
